@@ -5,6 +5,10 @@
          q <hex text> <calls|raw> <tmin|-> <tmax|-> <dur> <off> <byHost> <fill> <fillv|-> <desc> <limit> <offset>
                                                 run the statement                      -> rows | err:<kind>
   rows:  <host|*>@<time>=<v>;<v>…  joined by "," ("-" = none), v = i<int> | f<hex64> | n
+
+  real-storage cases (a tsdb.Shard / tsm1 engine on disk, sparse two-field series):
+         S <host> <i|f> <times> <v values, x = none> <u values, x = none>              -> ok
+         Q <hex text> <the 11 tokens of q> <cond: - | gt:k | ge:k | lt:k | le:k> <aux 0|1>  -> rows | err:<kind>
 -/
 import Influx.Proto
 import Influx.Model.ReducersFloat
@@ -21,6 +25,8 @@ def floatArith22 : Arith22 Float Float := { floatArith with ofIntV := Float.ofIn
 structure State where
   ints : List (Series Int) := []
   flts : List (Series Float) := []
+  ints2 : List (Series2 Int) := []
+  flts2 : List (Series2 Float) := []
 
 def parseAgg : String → Option Agg
   | "count" => some .count | "sum" => some .sum | "mean" => some .mean | "min" => some .min
@@ -63,6 +69,27 @@ inductive Op
   | seriesI (s : Series Int)
   | seriesF (s : Series Float)
   | query (q : Query)
+  | series2I (s : Series2 Int)
+  | series2F (s : Series2 Float)
+  | query2 (q : Query2)
+
+def parseHole {V : Type} (pv : String → Option V) (s : String) : Option (Option V) :=
+  if s = "x" then some none else (pv s).map some
+
+def zipPts2 {V : Type} : List Int → List (Option V) → List (Option V) → Option (List (Pt2 V))
+  | [], [], [] => some []
+  | t :: ts, v :: vs, u :: us => (zipPts2 ts vs us).map (⟨t, v, u⟩ :: ·)
+  | _, _, _ => none
+
+def parseCond (s : String) : Option (Option (Cmp × Int)) :=
+  if s = "-" then some none else
+  match s.splitOn ":" with
+  | [c, k] => do
+    let k ← k.toInt?
+    let c ← match c with
+      | "gt" => some Cmp.gt | "ge" => some Cmp.ge | "lt" => some Cmp.lt | "le" => some Cmp.le | _ => none
+    some (some (c, k))
+  | _ => none
 
 def parseOp : List String → Option Op
   | ["s", host, "i", ts, vs] => do
@@ -78,15 +105,42 @@ def parseOp : List String → Option Op
     let pts ← zipPts ts vs
     some (.seriesF ⟨host, pts⟩)
   | "q" :: _hex :: rest => (parseQuery rest).map .query
+  | ["S", host, "i", ts, vs, us] => do
+    let ts ← parseInts ts
+    let vs ← (splitComma vs).mapM (parseHole fun s => s.toInt?)
+    let us ← (splitComma us).mapM (parseHole fun s => s.toInt?)
+    if !strictlyIncreasing ts then none
+    let pts ← zipPts2 ts vs us
+    some (.series2I ⟨host, pts⟩)
+  | ["S", host, "f", ts, vs, us] => do
+    let ts ← parseInts ts
+    let vs ← (splitComma vs).mapM (parseHole parseFloat)
+    let us ← (splitComma us).mapM (parseHole parseFloat)
+    if !strictlyIncreasing ts then none
+    let pts ← zipPts2 ts vs us
+    some (.series2F ⟨host, pts⟩)
+  | "Q" :: _hex :: rest =>
+    if rest.length = 13 then do
+      let q ← parseQuery (rest.take 11)
+      let cond ← parseCond (rest.getD 11 "")
+      let aux ← parseBool (rest.getD 12 "")
+      some (.query2 ⟨q, cond, aux⟩)
+    else none
   | _ => none
 
 /-- the case's series must have distinct hosts and one value type -/
 def addSeries (st : State) : Op → Option State
   | .seriesI s =>
-    if st.flts.isEmpty && !st.ints.any (·.host = s.host) then some { st with ints := st.ints ++ [s] } else none
+    if st.flts.isEmpty && st.ints2.isEmpty && st.flts2.isEmpty && !st.ints.any (·.host = s.host) then some { st with ints := st.ints ++ [s] } else none
   | .seriesF s =>
-    if st.ints.isEmpty && !st.flts.any (·.host = s.host) then some { st with flts := st.flts ++ [s] } else none
-  | .query _ => none
+    if st.ints.isEmpty && st.ints2.isEmpty && st.flts2.isEmpty && !st.flts.any (·.host = s.host) then some { st with flts := st.flts ++ [s] } else none
+  | .series2I s =>
+    if st.ints.isEmpty && st.flts.isEmpty && st.flts2.isEmpty && !st.ints2.any (·.host = s.host)
+    then some { st with ints2 := st.ints2 ++ [s] } else none
+  | .series2F s =>
+    if st.ints.isEmpty && st.flts.isEmpty && st.ints2.isEmpty && !st.flts2.any (·.host = s.host)
+    then some { st with flts2 := st.flts2 ++ [s] } else none
+  | _ => none
 
 def showVal {V : Type} (shV : V → String) : Val V Float → String
   | .v x => shV x
@@ -135,8 +189,9 @@ def parseRow {V : Type} (pv : String → Option V) (cols : List (Option Agg)) (s
     | _ => none
   | _ => none
 
-def parseResult {V : Type} (pv : String → Option V) (q : Query) (s : String) : Option (Result V Float) :=
-  let cols : List (Option Agg) := if q.isRaw then [none] else q.calls.map some
+def parseResult {V : Type} (pv : String → Option V) (q : Query) (s : String) (aux : Bool := false) :
+    Option (Result V Float) :=
+  let cols : List (Option Agg) := (if q.isRaw then [none] else q.calls.map some) ++ (if aux then [none] else [])
   if s.startsWith "err:" then some (.err s)
   else (splitComma s).mapM (parseRow pv cols) |>.map .rows
 
@@ -156,6 +211,11 @@ def step (st : State) (toks : List String) : State × String :=
       (st, showResult showI (Influx.InfluxQLPipe.run intArith22 q st.ints))
     else
       (st, showResult showF (Influx.InfluxQLPipe.run floatArith22 q st.flts))
+  | some (.query2 q) =>
+    if st.flts2.isEmpty then
+      (st, showResult showI (Influx.InfluxQLPipe.run2 intArith22 q st.ints2))
+    else
+      (st, showResult showF (Influx.InfluxQLPipe.run2 floatArith22 q st.flts2))
   | some op =>
     match addSeries st op with
     | some st' => (st', "ok")
@@ -205,6 +265,27 @@ def oracle (obs : List (List String × String)) : Verdict :=
           if holdsOn floatArith22 q acc.st.flts r then
             addTags { acc with nontrivial := nt (match r with | .rows l => l.length | _ => 1) } (queryTags q)
           else addTags (failWith sig) (queryTags q)
+        | none => failWith "bad-answer"
+    | some (.query2 q2) =>
+      let q := q2.q
+      let sig := "storage-" ++ (if q.isRaw then "raw" else if q.dur > 0 then "group-by-time" else "aggregate") ++
+        (if q2.cond.isSome then "-where" else "") ++ (if q2.aux then "-aux" else "")
+      let nt := fun (rows : Nat) => acc.nontrivial || rows > 0
+      let tags := ["real-shard"] ++ queryTags q ++ (if q2.cond.isSome then ["where-field"] else []) ++
+        (if q2.aux then ["aux-field"] else [])
+      if acc.st.flts2.isEmpty then
+        match parseResult parseVI q ans q2.aux with
+        | some r =>
+          if holdsOn2 intArith22 q2 acc.st.ints2 r then
+            addTags { acc with nontrivial := nt (match r with | .rows l => l.length | _ => 1) } tags
+          else addTags (failWith sig) tags
+        | none => failWith "bad-answer"
+      else
+        match parseResult parseVF q ans q2.aux with
+        | some r =>
+          if holdsOn2 floatArith22 q2 acc.st.flts2 r then
+            addTags { acc with nontrivial := nt (match r with | .rows l => l.length | _ => 1) } tags
+          else addTags (failWith sig) tags
         | none => failWith "bad-answer"
     | some op =>
       match addSeries acc.st op with
